@@ -5,7 +5,7 @@ from vcheck import Stream, sx_str
 from gen.pools import rand_f32, rand_i32
 
 PROPERTY = "C08"
-PROPS_VO = "Props/C08"
+PROPS_VO = ["Props/C08", "Props/C08i"]
 AXIOMS_OK = []
 ASSUMPTIONS = [
     "API level (Item::*) and instruction level (CODE.* wrappers by NAME)",
@@ -242,5 +242,56 @@ def instr_streams(seed, tier):
                    "one step of each CODE list-surgery instruction by NAME on random states; in 60% of the cases the CODE operands are related (pattern = a sub-item of the target or the target itself) and the index ranges over [-2S, 2S]")]
 
 
+KNOWN_ARGS = "pair"
+KNOWN_SUITE = {"run": "insext.known", "run#codeeq": "codeeq.known"}
+
+
+def insext_stream(seed, tier):
+    """CODE.INSERT at i then CODE.EXTRACT at i must yield the inserted item (all indices in [-2S, 2S])"""
+    from gen import stepgen
+    from gen.stategen import state, case_run, I, Z, L, N
+    rng = random.Random(seed + 29)
+    names = ["NOOP", "INTEGER.+", "CODE.DUP"]
+    cases = []
+    n = {"quick": 60, "thorough": 600, "search": 400}[tier]
+    for _ in range(n):
+        t = stepgen.rand_item(rng, names, 3, 4)
+        x = stepgen.rand_item(rng, names, 2, 3)
+        S = 1
+        def sz(u):
+            return 1 + sum(sz(c) for c in u[1:]) if (isinstance(u, list) and u and u[0] == 0) else 1
+        S = sz(t)
+        for i in range(-2 * S, 2 * S + 1):
+            cases.append(case_run(rng.randrange(2), state(exec=[Z(i), I("CODE.INSERT"), Z(i), I("CODE.EXTRACT")], code=[t, x]), 0, 4))
+    return [Stream("insert-then-extract", "run", "insext.check", cases,
+                   "random target trees (size S) x every index in [-2S, 2S]: ( i CODE.INSERT i CODE.EXTRACT ) must leave the inserted item on top of CODE")]
+
+
+def codeeq_stream(seed, tier):
+    """CODE.= / EXEC.= against structural equality"""
+    from gen import stepgen
+    from gen.stategen import state, case_run, I, Z, L, N, F, B
+    from gen.pools import fbits
+    rng = random.Random(seed + 31)
+    names = ["NOOP", "INTEGER.+", "TRUE"]
+    n = {"quick": 400, "thorough": 5000, "search": 3000}[tier]
+    cases = []
+    special = [(F(fbits(1.0)), F(fbits(1.0004))), (F(0x7fc00000), F(0x7fc00000)), (N("TRUE"), B(True)), (N("12"), Z(12)), (I("NOOP"), N("NOOP")),
+               (L(Z(1), Z(2)), L(Z(1), Z(2))), (L(), L()), (F(0), F(0x80000000)), (L(N("a b")), L(N("a"), N("b")))]
+    for k in range(n):
+        if k < len(special) * 2:
+            a, b = special[k // 2]
+        else:
+            a = stepgen.rand_item(rng, names, 3, 3)
+            b = a if rng.random() < 0.4 else stepgen.rand_item(rng, names, 3, 3)
+        if k % 2 == 0:
+            cases.append(case_run(rng.randrange(2), state(exec=[I("CODE.=")], code=[b, a]), 0, 1))
+        else:
+            cases.append(case_run(rng.randrange(2), state(exec=[I("EXEC.="), b, a]), 0, 1))
+    st = Stream("code-equality", "run", "codeeq.check", cases, "CODE.= and EXEC.= on equal / unequal / text-colliding item pairs: result vs structural equality")
+    st.known_suite = "codeeq.known"
+    return [st]
+
+
 def streams(seed, tier):
-    return api_streams(seed, tier) + instr_streams(seed, tier)
+    return api_streams(seed, tier) + instr_streams(seed, tier) + insext_stream(seed, tier) + codeeq_stream(seed, tier)
